@@ -10,8 +10,8 @@ EXTENDS FsTree, PathNorm, TLC, Json
 
 TraceLog == ndJsonDeserialize("trace.ndjson")
 
-VARIABLES l, tree, handles
-tvars == <<l, tree, handles>>
+VARIABLES l, tree, handles, rootGone
+tvars == <<l, tree, handles, rootGone>>
 
 SeqSet(s) == { s[i] : i \in 1..Len(s) }
 TreeVal(s) == [p \in { s[i][1] : i \in 1..Len(s) } |-> s[CHOOSE i \in 1..Len(s) : s[i][1] = p][2]]
@@ -37,36 +37,54 @@ ResMatch(want, got) ==
   \/ want = got
   \/ \E w \in want : w[1] = "stat" /\ w[2] = "" /\ \E g \in got : g[1] = "stat" /\ g[3] = w[3]
 
+\* Corner U7 (the statement speaks of a filespace "rooted in a directory"; FsTree's root always exists):
+\*  (a) a disk filespace that removed its own root directory (logged as rootgone) answers every call that does not
+\*      re-create the directory with a clean refusal, until some call re-creates it;
+\*  (b) a call through a child view whose base directory is gone that addresses the view's ROOT itself is refused,
+\*      possibly after re-creating the base as a directory.
+TargetsViewRoot(e) == ~EvClimbs(e) /\ (Reduce(e.sp) = <<>> \/ (e.name \in TwoPath /\ Reduce(e.sq) = <<>>))
+RootlessRefusal(t, e, gone) ==
+  IF gone /\ e.base = <<>> THEN EvRefuse(t, e)
+  ELSE IF "pre" \in DOMAIN e /\ e.base # <<>> /\ e.base \notin DOMAIN t /\ TargetsViewRoot(e) /\ NoFileIn(t, Prefixes(e.base))
+       THEN EvRefuse(t, e) \cup EvRefuse(MkDirs(t, Prefixes(e.base)), e)
+  ELSE {}
+\* the root directory may disappear only by a successful Remove / RemoveAll of the root itself
+RootGoneJustified(e, obsR) == e.name \in {"remove", "removeall"} /\ e.base = <<>> /\ Clamp(e.sp) = <<>> /\ obsR = OK
+LoggedGone(e) == IF "rootgone" \in DOMAIN e THEN e.rootgone ELSE FALSE
+
 \* the observed outcome is one the specification allows; a backend checked under the C02
 \* preconditions ("pre" in the event) may, outside them, answer anything but must fail cleanly
-Allowed(t, e, obsR, obsT) ==
-  \/ \E o \in EvOutcomes(t, e) : ResMatch(o.res, obsR) /\ o.t = obsT
+Allowed(t, e, obsR, obsT, gone) ==
+  \/ \E o \in EvOutcomes(t, e) \cup RootlessRefusal(t, e, gone) : ResMatch(o.res, obsR) /\ o.t = obsT
   \/ /\ "pre" \in DOMAIN e
      /\ ~EvClimbs(e) /\ ~PreC(t, ViewOp(e, Reduce))
      /\ CleanChange(t, obsT, {e.base \o Reduce(e.sp)} \cup (IF e.name \in TwoPath THEN {e.base \o Reduce(e.sq)} ELSE {}))
 
-Init == l = 1 /\ tree = EmptyTree /\ handles = << >>
+Init == l = 1 /\ tree = EmptyTree /\ handles = << >> /\ rootGone = FALSE
 
 Ev == TraceLog[l]
 IsEv(k) == l <= Len(TraceLog) /\ Ev.ev = k /\ l' = l + 1
 
-TraceReset == IsEv("reset") /\ tree' = EmptyTree /\ handles' = << >>
+TraceReset == IsEv("reset") /\ tree' = EmptyTree /\ handles' = << >> /\ rootGone' = FALSE
 
 TraceOp ==
   /\ IsEv("op")
   /\ LET e == Ev
          obsT == TreeVal(e.tree)
          obsR == ResOf(e.res) IN
-     /\ Allowed(tree, e, obsR, obsT) = TRUE   \* "= TRUE": evaluated as an expression, not enumerated as an action
+     /\ Allowed(tree, e, obsR, obsT, rootGone) = TRUE   \* "= TRUE": evaluated as an expression, not enumerated as an action
+     /\ ((LoggedGone(e) /\ ~rootGone) => RootGoneJustified(e, obsR)) = TRUE
+     /\ (LoggedGone(e) => obsT = EmptyTree) = TRUE
+     /\ rootGone' = LoggedGone(e)
      /\ tree' = obsT
      /\ handles' = IF "h" \in DOMAIN e
                    THEN [x \in DOMAIN handles \cup {e.h} |-> IF x = e.h THEN obsR ELSE handles[x]]
                    ELSE handles
 
-TraceScribble == IsEv("scribble") /\ TreeVal(Ev.tree) = tree /\ UNCHANGED <<tree, handles>>
+TraceScribble == IsEv("scribble") /\ TreeVal(Ev.tree) = tree /\ UNCHANGED <<tree, handles, rootGone>>
 
 TraceInspect == /\ IsEv("inspect") /\ Ev.h \in DOMAIN handles /\ handles[Ev.h] = ResOf(Ev.now)
-                /\ UNCHANGED <<tree, handles>>
+                /\ UNCHANGED <<tree, handles, rootGone>>
 
 TraceNext == TraceReset \/ TraceOp \/ TraceScribble \/ TraceInspect
 TraceSpec == Init /\ [][TraceNext]_tvars
